@@ -1044,6 +1044,10 @@ let dispatch line =
   | "V" :: args -> v_line args
   | "X" :: args -> x_line args
   | ["N"; "pfn"; h] -> "model=" ^ hex_of_str (public_field_name (str_of_hex h))
+  | ["N"; "cmt"; h] -> "model=" ^ hex_of_str (holes_comment (str_of_hex h))
+  | ["N"; "lex"; h] -> "model=" ^ (match holes_ctx_after (str_of_hex h) with
+      | HCode -> "Code" | HIdent -> "Ident" | HStr -> "Str" | HRaw -> "Raw" | HRune -> "Rune"
+      | HLineComment -> "LineComment" | HBlockComment -> "BlockComment")
   | "JO" :: args -> jo_line args
   | "EO" :: args -> eo_line args
   | "UO" :: args -> uo_line args
